@@ -16,7 +16,8 @@ structure Acc where
   notes : List String := []                  -- `O` lines: digests for cross-scenario comparison
   deriving Inhabited
 
-def Acc.add (a : Acc) (prop : String) (fs : List String) : Acc :=
+def Acc.add (a : Acc) (prop : String) (fs0 : List String) (ctx : String := "") : Acc :=
+  let fs := if ctx == "" then fs0 else fs0.map (· ++ s!" ctx={ctx}")
   let n := match a.evals.find? (·.1 == prop) with | some (_, k) => k | none => 0
   { a with fails := a.fails ++ fs.map (fun f => (prop, f)),
            evals := (prop, n + 1) :: a.evals.filter (·.1 != prop) }
@@ -135,6 +136,11 @@ def panelVerdicts (f : Feat) (props : List String) (p : Panel) (sc : Scenario) (
   let mut prevBg : Option Nat := none
   let mut faultSeen := false
   let mut wakeSeen := false
+  let mut prevFull := false
+  -- history class of the driver: fresh (no wake_up since construction), woken (last wake_up
+  -- followed a sleep), rewoken (last wake_up without a preceding sleep)
+  let mut ctx := "fresh"
+  let mut slept := false
   let mut probePlanes : List Nat := []
   let mut k := 0
   let mut wHash := H0
@@ -174,28 +180,30 @@ def panelVerdicts (f : Feat) (props : List String) (p : Panel) (sc : Scenario) (
     -- C01 / C02: full-frame delivery
     if ok ∧ fullOps.contains name ∧ !(fullTargets p.name name).isEmpty then
       if want "C01" then
-        acc := acc.add "C01" (c01Full p a before after)
+        acc := acc.add "C01" (c01Full p a before after) ctx
         if name == "updisp" ∨ name == "updispnew" then
           let n := (newRefreshes before after).length
-          acc := acc.add "C01" (if n = 1 then [] else [s!"site={site} reason=refresh-count got={n} want=1"])
+          acc := acc.add "C01" (if n = 1 then [] else [s!"site={site} reason=refresh-count got={n} want=1"]) ctx
       -- the probe: the full-frame update right before the final display call
-      if want "C02" ∧ k + 2 = traces.length then acc := acc.add "C02" (c01Full p a before after)
+      if want "C02" ∧ k + 2 = traces.length then acc := acc.add "C02" (c01Full p a before after) ctx
       -- C08 (iv): a full-frame update after sleep + wake_up has the effect it has after construction
       if want "C08" ∧ wakeSeen then acc := acc.add "C08" ((c01Full p a before after).map (· ++ " after=wake_up"))
-    if ok ∧ want "C01" ∧ (name == "disp" ∨ name == "dispnew") then acc := acc.add "C01" (c01Disp p a before after)
+    -- "a display call THEN triggers exactly one refresh": the display call that follows an update
+    if ok ∧ want "C01" ∧ prevFull ∧ (name == "disp" ∨ name == "dispnew") then acc := acc.add "C01" (c01Disp p a before after) ctx
     -- C06
-    if ok ∧ want "C06" ∧ !(partTargets p.name name).isEmpty then acc := acc.add "C06" (c06 p a t.evs before after)
+    if ok ∧ want "C06" ∧ !(partTargets p.name name).isEmpty then acc := acc.add "C06" (c06 p a t.evs before after) ctx
+
     if want "C06" ∧ partOps.contains name ∧ t.res == .panic then
       acc := acc.add "C06" [s!"site={site} reason=panic got=panic want=window-programmed"]
     -- C07
     if want "C07" then
       if ok ∧ name == "clear" then
         match (fullTargets p.name "upd").head?, prevBg with
-        | some prim, some bg => acc := acc.add "C07" (c07 p a bg before after prim)
+        | some prim, some bg => acc := acc.add "C07" (c07 p a bg before after prim) ctx
         | _, _ => pure ()
       if name == "bg" then
         let wantBg := (a.getD 1 "").toNat?
-        acc := acc.add "C07" (if t.bg = wantBg then [] else [s!"site={site} reason=bg-accessor got={t.bg} want={wantBg}"])
+        acc := acc.add "C07" (if t.bg = wantBg then [] else [s!"site={site} reason=bg-accessor got={t.bg} want={wantBg}"]) ctx
     -- C08
     if want "C08" then
       if ok ∧ name == "sleep" then acc := acc.add "C08" (c08Sleep p a t.evs after)
@@ -243,6 +251,11 @@ def panelVerdicts (f : Feat) (props : List String) (p : Panel) (sc : Scenario) (
       | .w dc _ bs => wHash := hashBytes (mix wHash (if dc then 1 else 0)) bs
       | _ => pure ()
     if name == "wake" then wakeSeen := true
+    if ok ∧ name == "sleep" then slept := true
+    if name == "wake" then
+      ctx := if slept then "woken" else "rewoken"
+      slept := false
+    prevFull := ok ∧ fullOps.contains name
     prevBg := t.bg
     k := k + 1
   if want "C04" then acc := { acc with notes := acc.notes ++ [s!"C04 {stateDigest p sim.peek probePlanes}"] }
